@@ -71,7 +71,8 @@ def check(ctx, res) -> None:
     # ---- R17.4
     yield_counter_rule(ctx, res, "R17.4")
     cr = idx.need_func("rope.refactor.usefunction.UseFunction._check_returns")
-    cfg = CFG(cr.node)
+    from .common import inline_private_calls
+    cfg = CFG(inline_private_calls(idx, cr))  # the check may be split into private steps
     ok = False
     for n in cfg.nodes:
         if n.kind == "stmt" and isinstance(n.ast, ast.Raise) and "RefactoringError" in ast.unparse(n.ast):
